@@ -1,27 +1,27 @@
-import PyYetiVerif.Lemmas.BulkTabFixed
+import PyYetiVerif.Lemmas.BulkTabDefault
 /-!
-# C13 — the CANDIDATE FIX of finding F65 (`wttabled1`, default pair format): VALUES without a fit hypothesis
+# C13 — `wttabled1` with its default pair format: VALUES, for every finite value
 
-Property theorems only; /repo is not patched, the current model (`tabled1Lines … pyE 16 9 'E'`) and
-`tabled1_roundtrip_values` / `tabled1_field_overflow_counterexample` of `Props/C13Values.lean` stay as they are.  The
-model of the patched routine is `Model/BulkTabFixed.tabled1LinesFixed`; it is tied to the patched text by
-`corpus/c13_f65_candidate_check.py` (exact text, driver command `tabled1fx`).
+Property theorems only.  The default case of `wttabled1` (`form == "{:16.9E}{:16.9E}"`) formats every value through
+`_dmig_field` since fix 328435d of finding F65; its model is `Model/BulkTabDefault.tabled1LinesDefault`, tied to the code by the
+exact-text stream `wttabled1` (driver command `tabled1d`) and by the translator (the default-form test and the per-value helper
+call are extracted: `tabDefaultTest`, `tabPreHelper`, `tabPreForm` in `Generated/BulkFormats.lean`).
 -/
 namespace PyYetiVerif.C13
 open PyYetiVerif.Bulk PyYetiVerif.PyFloat PyYetiVerif.NasFloat
 
-/-- **`rdtabled1 (wttabled1 (tid, t, d))`, default format, PATCHED writer, on physical lines, as VALUES — for EVERY finite
-value**: the hypothesis `hfit` of `tabled1_roundtrip_values` is gone.  The table comes back pair by pair; every abscissa /
+/-- **`rdtabled1 (wttabled1 (tid, t, d))`, default format `{:16.9E}{:16.9E}` (every value through `_dmig_field`, fix
+328435d of finding F65), on physical lines, as VALUES — for EVERY finite value**, no fit hypothesis.  The table comes back pair by pair; every abscissa /
 ordinate is the decimal its field shows, within half a unit of its tenth significant digit (of the ninth for a negative
 value with a three-digit exponent). -/
-theorem tabled1_roundtrip_values_fixed (name : Txt) (tid : Int) (tab : List (Dbl × Dbl))
+theorem tabled1_roundtrip_values (name : Txt) (tid : Int) (tab : List (Dbl × Dbl))
     (hname : name ≠ [] ∧ name.length + 1 ≤ 8 ∧ '$' ∉ name ∧ ',' ∉ name ∧ '*' ∉ name) (htid : (dec tid).length ≤ 16)
     (hden : ∀ p ∈ tab, 0 < p.1.den ∧ 0 < p.2.den) (hr : ∀ p ∈ tab, InRange p.1 ∧ InRange p.2) :
-    rdTabled1 name (tabled1LinesFixed name tid tab) =
+    rdTabled1 name (tabled1LinesDefault name tid tab) =
         some [(Val.int tid, tab.map fun p => (dmigRead p.1, dmigRead p.2))] ∧
       ∀ p ∈ tab, Near (dmigRead p.1) (dblRat p.1) (dmigBound p.1) ∧ Near (dmigRead p.2) (dblRat p.2) (dmigBound p.2) := by
   have hE : ('E' : Char) = 'e' ∨ 'E' = 'E' ∨ 'E' = 'D' := Or.inr (Or.inl rfl)
-  have hin : TabIn true name tid (tabFixedPairs tab) := by
+  have hin : TabIn true name tid (tabDefaultPairs tab) := by
     refine ⟨hname.1, by simpa using hname.2.1, hname.2.2.1, hname.2.2.2.1, hname.2.2.2.2, by simpa using htid, ?_⟩
     intro q hq
     obtain ⟨p, hp, rfl⟩ := List.mem_map.mp hq
@@ -29,9 +29,9 @@ theorem tabled1_roundtrip_values_fixed (name : Txt) (tid : Int) (tab : List (Dbl
     have c2 := dmigFld_clean 'E' hE p.2 (hden p hp).2 (hr p hp).2
     exact ⟨c1.1.1, c2.1.1, c1.1.2.1, c2.1.2.1, c2.2⟩
   refine ⟨?_, fun p hp => ⟨dmigRead_near p.1 (hden p hp).1, dmigRead_near p.2 (hden p hp).2⟩⟩
-  unfold tabled1LinesFixed
+  unfold tabled1LinesDefault
   rw [rdTabled1_written true name tid _ hin]
-  unfold tabFixedPairs
+  unfold tabDefaultPairs
   rw [List.map_map]
   congr 3
   apply List.map_congr_left
@@ -39,30 +39,30 @@ theorem tabled1_roundtrip_values_fixed (name : Txt) (tid : Int) (tab : List (Dbl
   simp [Function.comp, nasScan_dmigFld 'E' hE, arr_dmigRead]
 
 /-- every double (every 64-bit pattern that is not inf / nan; `dblOf` maps those to 0) satisfies the hypotheses on the
-values: the patched round trip asks nothing of the numbers -/
-theorem tabled1_fixed_all_doubles (name : Txt) (tid : Int) (bits : List (Nat × Nat))
+values: the round trip asks nothing of the numbers -/
+theorem tabled1_all_doubles (name : Txt) (tid : Int) (bits : List (Nat × Nat))
     (hname : name ≠ [] ∧ name.length + 1 ≤ 8 ∧ '$' ∉ name ∧ ',' ∉ name ∧ '*' ∉ name) (htid : (dec tid).length ≤ 16) :
-    rdTabled1 name (tabled1LinesFixed name tid (bits.map fun b => (termVal b.1, termVal b.2))) =
+    rdTabled1 name (tabled1LinesDefault name tid (bits.map fun b => (termVal b.1, termVal b.2))) =
       some [(Val.int tid, bits.map fun b => (dmigRead (termVal b.1), dmigRead (termVal b.2)))] := by
-  have h := (tabled1_roundtrip_values_fixed name tid (bits.map fun b => (termVal (b.1 : Int), termVal (b.2 : Int))) hname htid
+  have h := (tabled1_roundtrip_values name tid (bits.map fun b => (termVal (b.1 : Int), termVal (b.2 : Int))) hname htid
     (by intro p hp; obtain ⟨b, _, rfl⟩ := List.mem_map.mp hp; exact ⟨termVal_den_pos _, termVal_den_pos _⟩)
     (by intro p hp; obtain ⟨b, _, rfl⟩ := List.mem_map.mp hp; exact ⟨termVal_inRange _, termVal_inRange _⟩)).1
   rw [h, List.map_map]
   rfl
 
-/-- **no behaviour change where the current writer is right**: when every value fits its field in `'{:16.9E}'` (the
-hypothesis `hfit` of `tabled1_roundtrip_values`), the patched writer produces the same text as the current one -/
-theorem tabled1_fixed_eq_current (name : Txt) (tid : Int) (tab : List (Dbl × Dbl))
+/-- HISTORY of fix 328435d: when every value fits its field in `'{:16.9E}'` the writer produces the text it produced before
+the fix (`tabPairsBeforeFix`) -/
+theorem tabled1_default_eq_before_fix (name : Txt) (tid : Int) (tab : List (Dbl × Dbl))
     (hfit : ∀ p ∈ tab, (fmtE 9 p.1).length ≤ 16 ∧ (fmtE 9 p.2).length ≤ 16) :
-    tabled1LinesFixed name tid tab = tabled1Lines true name tid (tabDefaultPairs tab) := by
-  unfold tabled1LinesFixed tabFixedPairs tabDefaultPairs
+    tabled1LinesDefault name tid tab = tabled1Lines true name tid (tabPairsBeforeFix tab) := by
+  unfold tabled1LinesDefault tabDefaultPairs tabPairsBeforeFix
   congr 1
   apply List.map_congr_left
   intro p hp
   simp [dmigFld, (hfit p hp).1, (hfit p hp).2]
 
 /-- the fields differ exactly for a negative value with a three-digit exponent (finite `x`) -/
-theorem tabled1_fixed_differs_iff (x : Dbl) (hd : 0 < x.den) (hr : InRange x) :
+theorem tabled1_default_differs_iff (x : Dbl) (hd : 0 < x.den) (hr : InRange x) :
     dmigFld 'E' x ≠ pyE 16 9 'E' x ↔ x.neg = true ∧ (expDigits (eExp 9 x)).length = 3 := by
   rw [← dmig_fallback_iff x hd hr]
   constructor
@@ -77,11 +77,22 @@ theorem tabled1_fixed_differs_iff (x : Dbl) (hd : 0 < x.den) (hr : InRange x) :
       omega
     omega
 
-/-! ### non-vacuity: the input of finding F65 -/
+/-- HISTORY of finding F65 (`wttabled1`, repaired by 328435d; not a property theorem of the present code): the pair format
+`{:16.9E}{:16.9E}` applied to the values directly had no fallback.  For `x = −1e100` the ordinate field was 17 characters and the
+16 columns the reader slices off read as `−1e10`, not as the value written; `_dmig_field` writes `-1.00000000D+100` /
+`-1.00000000E+100` and reads back `−1·10^100`. -/
+theorem tabled1_field_overflow_history :
+    (pyE 16 9 'E' ⟨true, 10 ^ 100, 1⟩).length = 17 ∧ ¬ (fmtE 9 ⟨true, 10 ^ 100, 1⟩).length ≤ 16 ∧
+    nasScan ((pyE 16 9 'E' ⟨true, 10 ^ 100, 1⟩).take 16) = .num (-1000000000) 1 ∧
+    readE 9 ⟨true, 10 ^ 100, 1⟩ = .num (-1000000000) 91 ∧
+    (dmigFld 'D' ⟨true, 10 ^ 100, 1⟩ = txt "-1.00000000D+100" ∧ dmigRead ⟨true, 10 ^ 100, 1⟩ = .num (-100000000) 92) := by
+  refine ⟨?_, ?_, ?_, ?_, ?_, ?_⟩ <;> decide +kernel
 
-/-- `wttabled1(f, 1, [0., 1.], [-1e100, 1.])`, patched: the ordinate is `-1.00000000E+100`, sixteen characters, and
-`rdtabled1` returns `−1·10^100` (the current text reads back as `−1e10`: `tabled1_field_overflow_counterexample`) -/
-example : tabled1LinesFixed (txt "TABLED1") 1 [(⟨false, 0, 1⟩, ⟨true, 10 ^ 100, 1⟩), (⟨false, 1, 1⟩, ⟨false, 1, 1⟩)] =
+/-! ### non-vacuity: the input of finding F65 (fixed by 328435d) -/
+
+/-- `wttabled1(f, 1, [0., 1.], [-1e100, 1.])`, the ordinate is `-1.00000000E+100`, sixteen characters, and
+`rdtabled1` returns `−1·10^100` (before the fix: `tabled1_field_overflow_history`) -/
+example : tabled1LinesDefault (txt "TABLED1") 1 [(⟨false, 0, 1⟩, ⟨true, 10 ^ 100, 1⟩), (⟨false, 1, 1⟩, ⟨false, 1, 1⟩)] =
       [txt "TABLED1*               1", txt "*",
        txt "*        0.000000000E+00-1.00000000E+100 1.000000000E+00 1.000000000E+00", txt "*       ENDT"] ∧
     dmigRead ⟨true, 10 ^ 100, 1⟩ = .num (-100000000) 92 := by
@@ -89,7 +100,7 @@ example : tabled1LinesFixed (txt "TABLED1") 1 [(⟨false, 0, 1⟩, ⟨true, 10 ^
   have h1 : dmigFld 'E' ⟨true, 10 ^ 100, 1⟩ = txt "-1.00000000E+100" := by decide +kernel
   have h2 : dmigFld 'E' ⟨false, 1, 1⟩ = txt " 1.000000000E+00" := by decide +kernel
   refine ⟨?_, by decide +kernel⟩
-  simp only [tabled1LinesFixed, tabFixedPairs, List.map_cons, List.map_nil, h0, h1, h2]
+  simp only [tabled1LinesDefault, tabDefaultPairs, List.map_cons, List.map_nil, h0, h1, h2]
   simp [tabled1Lines, tabled1Rows, fullChunks]
   decide
 
